@@ -5,7 +5,8 @@
    What is modelled, following the code as it is:
    - Cluster.create, _update_job_status (the three loops with their assertions, the final
      blocked_by.clear() loop, both serialisations), _are_all_jobs_complete, _mark_complete,
-     _mark_canceled, prepare_for_resubmission, _promote_to_submitter, _demote_from_submitter,
+     _mark_canceled, prepare_for_resubmission (as repaired by /repo commit ce6353a: counters taken from
+     the job table), _promote_to_submitter, _demote_from_submitter,
      _complete_hpc_job_id, get_status_summary, and the version logic of _serialize /
      _serialize_jobs.
    - Python exceptions are explicit results: AssertionError -> EAssert, KeyError (status_lookup[name]
@@ -248,7 +249,8 @@ Definition reload (s : state) : res state :=
    the rerun jobs are removed by the caller (resubmit_jobs._reset_results) *)
 Fixpoint lookup_blk (n : N) (upd : list (N * list N)) : list N :=
   match upd with [] => [] | (k, v) :: r => if N.eqb n k then v else lookup_blk n r end.
-Definition prepare_for_resubmission (s : state) (rerun : list N) (upd : list (N * list N)) : res state :=
+Definition resubmit_with (counters : list job -> list N -> Z * Z)
+           (s : state) (rerun : list N) (upd : list (N * list N)) : res state :=
   let c := st_cfg s in
   if negb (c_complete c) then Err EAssert else
   let jobs := js_jobs (st_js s) in
@@ -256,8 +258,8 @@ Definition prepare_for_resubmission (s : state) (rerun : list N) (upd : list (N 
                              then {| j_name := j_name j; j_state := NOT_SUBMITTED;
                                      j_blocked := lookup_blk (j_name j) upd; j_cancel := j_cancel j |}
                              else j) jobs in
-  let ndone := Z.of_nat (length (filter (fun j => negb (memN (j_name j) rerun) && jstate_eqb (j_state j) DONE) jobs)) in
-  let c1 := {| c_num := c_num c; c_submitted := c_num c - Z.of_nat (length rerun); c_completed := ndone;
+  let '(nsub, ndone) := counters jobs rerun in
+  let c1 := {| c_num := c_num c; c_submitted := nsub; c_completed := ndone;
                c_complete := false; c_canceled := c_canceled c; c_submitter := c_submitter c;
                c_version := c_version c |} in
   let '(c', h') := serialize_cfg c1 (st_hash s) in
@@ -266,6 +268,17 @@ Definition prepare_for_resubmission (s : state) (rerun : list N) (upd : list (N 
                                  js_version := js_version (st_js s) |};
         st_rows := diffN (st_rows s) rerun;
         st_hash := h' |}.
+(* the loop: for a job that is not rerun, submitted += 1 if state != NOT_SUBMITTED, completed += 1 if DONE *)
+Definition resubmit_counters (jobs : list job) (rerun : list N) : Z * Z :=
+  (Z.of_nat (length (filter (fun j => negb (memN (j_name j) rerun) && negb (jstate_eqb (j_state j) NOT_SUBMITTED)) jobs)),
+   Z.of_nat (length (filter (fun j => negb (memN (j_name j) rerun) && jstate_eqb (j_state j) DONE) jobs))).
+Definition prepare_for_resubmission := resubmit_with resubmit_counters.
+(* HISTORY (before /repo commit ce6353a): submitted_jobs = num_jobs - len(jobs_to_resubmit).  Kept as a
+   regression: Props/C09.v refutes it, and the correspondence must disagree with it on the witness. *)
+Definition resubmit_counters_old (num : Z) (jobs : list job) (rerun : list N) : Z * Z :=
+  (num - Z.of_nat (length rerun),
+   Z.of_nat (length (filter (fun j => negb (memN (j_name j) rerun) && jstate_eqb (j_state j) DONE) jobs))).
+Definition prepare_for_resubmission_old (s : state) := resubmit_with (resubmit_counters_old (c_num (st_cfg s))) s.
 
 (* Cluster._are_all_jobs_complete *)
 Definition are_all_complete (s : state) : res bool :=
@@ -350,19 +363,11 @@ Definition round_ok (s : state) (a : round_args) : bool :=
   && subsetN (ra_canceled a) (ra_completed a)
   && subsetN (ra_completed a) (st_rows s ++ ra_new_rows a).
 
-(* what resubmit_jobs guarantees with its default options (failed + missing jobs and everything
-   blocked by them are rerun): every job that is not rerun has a successful result, i.e. is DONE *)
-Definition resubmit_ok (s : state) (rerun : list N) : bool :=
-  c_complete (st_cfg s)
-  && nodupbN rerun
-  && subsetN rerun (names (js_jobs (st_js s)))
-  && forallb (fun j => memN (j_name j) rerun || negb (jstate_eqb (j_state j) NOT_SUBMITTED)) (js_jobs (st_js s)).
-
 Definition op_ok (s : state) (o : op) : bool :=
   match o with
   | OpRound a => round_ok s a
   | OpMarkComplete => negb (c_complete (st_cfg s))
-  | OpResubmit rerun _ => resubmit_ok s rerun
+  | OpResubmit _ _ => c_complete (st_cfg s)
   | OpDemote => c_submitter (st_cfg s)
   | OpCompleteHpc id => memN id (js_hpc (st_js s))
   | OpMarkCanceled | OpReload | OpPromote => true
